@@ -147,6 +147,7 @@ fn specs(tier: Tier, seeds: &std::sync::Arc<Vec<Seed>>) -> Vec<Spec> {
         cost: 6000,
         build: Box::new(move || Box::new(ListFam { name: "bytes".into(), items: short_bytes(!q).into_iter().map(|b| (b, R_ALL)).collect(), shard: 0 })),
     });
+    v.push(Spec { name: "ext-call-grid".into(), cost: 3000, build: Box::new(|| Box::new(ListFam { name: "ext-call-grid".into(), items: ext_call_grid(), shard: 0 })) });
     v.push(Spec { name: "nest".into(), cost: 12000, build: Box::new(move || Box::new(nest_family(tier))) });
     {
         let s = seeds.clone();
